@@ -67,12 +67,11 @@ func equal(n *Node, a, b reflect.Value, path string, json bool) string {
 			}
 		}
 	case KBigInt:
-		if a.IsNil() != b.IsNil() {
+		ba, bb := BigOf(a), BigOf(b)
+		if (ba == nil) != (bb == nil) {
 			return fmt.Sprintf("%s: big.Int nil-ness differs", path)
 		}
-		if !a.IsNil() {
-			ba, _ := a.Interface().(*big.Int)
-			bb, _ := b.Interface().(*big.Int)
+		if ba != nil {
 			if ba.Cmp(bb) != 0 {
 				return fmt.Sprintf("%s: big.Int %s != %s", path, ba, bb)
 			}
@@ -331,4 +330,16 @@ func isEmptyValue(v reflect.Value) bool {
 	}
 
 	return v.Kind() == reflect.Slice && v.Len() == 0
+}
+
+// BigOf returns the number of a KBigInt value: a *big.Int (nil stays nil) or a big.Int held by value.
+func BigOf(v reflect.Value) *big.Int {
+	if v.Kind() == reflect.Ptr {
+		bi, _ := v.Interface().(*big.Int)
+
+		return bi
+	}
+	x, _ := v.Interface().(big.Int)
+
+	return &x
 }
